@@ -4,20 +4,23 @@
    IEEE-754 binary64 (Coq primitive floats; what the C code computes), evaluated by coqc for the
    correspondence run; ScaleDefs = box filter, chain of scaled screens, messages (extracted). *)
 From LV Require Import Scale.ScaleQ Scale.ScaleF Scale.ScaleDefs Scale.ScaleProofs Scale.ScaleFProofs
+  Scale.ScalePtr Scale.ScalePtrProofs Scale.ScaleCopy Scale.ScaleAudit
   Cursor.CursorProofs Gen.Consts_C17.
 Local Open Scope Z_scope.
 
-(* ---------------------------------------------------------------- geometry, exact, all sizes *)
+(* ---------------------------------------------------------------- geometry, Q MODEL (exact rationals), all sizes.
+   NOT what the C doubles compute in every case (e.g. corr1F 98 2 49 1 = (0,2), corr1Q = (1,1)): the statement about the
+   doubles is C17_correction_inside_F_on (inside + covering the exact image, widths <= 60, by computation). *)
 (* rfbScaledCorrection, one axis: for every from, to >= 1 and every rectangle starting inside [from]:
    at least one pixel wide and inside [to] ... *)
-Theorem C17_correction_inside : forall from to x w,
+Theorem C17_correction_inside_Q_model : forall from to x w,
   1 <= from -> 1 <= to -> 0 <= x < from -> 0 <= w ->
   let '(x2, w2) := corr1Q from to x w in
   0 <= x2 /\ 1 <= w2 /\ x2 + w2 <= to.
 Proof. exact corr1Q_inside. Qed.
 
 (* ... and it covers the exact image [x*to/from, (x+w)*to/from) of the source rectangle *)
-Theorem C17_correction_covers : forall from to x w,
+Theorem C17_correction_covers_Q_model : forall from to x w,
   1 <= from -> 1 <= to -> 0 <= x -> 0 <= w -> x + w <= from ->
   let '(x2, w2) := corr1Q from to x w in
   x2 * from <= x * to /\ (x + w) * to <= (x2 + w2) * from.
@@ -50,17 +53,17 @@ Proof. exact scaleF_is_Q. Qed.
 
 (* all 16-bit sizes, over the standard model of binary64 (hypotheses of the Section, see ScaleProofs):
    a = x*to < 2^32, b = from < 2^16, q = n/d the correctly rounded quotient: (int) q = floor(a/b) *)
-Theorem C17_scaleX_exact_standard_model : forall a b n d : Z,
+Theorem C17_scaleX_exact_conditional : forall a b n d : Z,
   0 <= a < 2 ^ 32 -> 1 <= b < 2 ^ 16 -> 0 < d ->
   (forall k, 0 <= k -> k * b <= a -> k * d <= n) ->
   n * b * 2 ^ 53 <= a * d * (2 ^ 53 + 1) ->
   n / d = a / b.
 Proof. exact trunc_rounded_quotient. Qed.
 
-(* C17_pointer_unscale over the doubles (same bound): the mapped pointer position lies in the source
+(* C17_pointer_unscale_on over the doubles (same bound): the mapped pointer position lies in the source
    block of the client pixel.  (F17: refuted for the formula before c7c2b1b, see
    ScaleFProofs.pointer_old_formula_refuted: 29 -> 57, block [58,60).) *)
-Theorem C17_pointer_unscale : forall W n x,
+Theorem C17_pointer_unscale_on : forall W n x,
   1 <= W <= NS -> 1 <= n <= W -> let w' := W / n in 0 <= x < w' ->
   exists v, scaleF w' W x = Some v /\ x * scaleQ w' W 1 <= v < x * scaleQ w' W 1 + scaleQ w' W 1.
 Proof. exact pointer_in_block_F. Qed.
@@ -69,6 +72,39 @@ Theorem C17_pointer_old_formula_refuted :
   exists W n x v, 1 <= n /\ n <= W /\ 0 <= x < W / n /\ scaleF_old (W / n) W x = Some v /\
                   ~ (x * scaleQ (W / n) W 1 <= v).
 Proof. exact pointer_old_formula_refuted. Qed.
+
+(* the pointer event that reaches the application, at once (button change, or deferPtrUpdateTime = 0)
+   or remembered for motion coalescing and delivered later by rfbUpdateClient: exactly one of the two
+   happens and the event is (buttons, floor(x*W/w'), floor(y*H/h')) - the origin of the source block the
+   filter averages for that client pixel; x with the width ratio, y with the height ratio *)
+Theorem C17_pointer_event_block_origin_on : forall ps k c b W H n x y,
+  1 <= W <= NS -> 1 <= H <= NS -> 1 <= n <= W -> n <= H ->
+  let w' := W / n in let h' := H / n in
+  0 <= x < w' -> 0 <= y < h' ->
+  nth_error (pcls ps) k = Some c -> owner_ok ps k = true ->
+  let '(ps1, e1) := ptr_msg ps k b (scaleF w' W x) (scaleF h' H y) in
+  let e := (b, Some (scaleQ w' W x), Some (scaleQ h' H y)) in
+  (e1 = Some e /\ snd (ptr_flush ps1 k) = None) \/ (e1 = None /\ snd (ptr_flush ps1 k) = Some e).
+Proof. exact pointer_event_block_origin. Qed.
+
+(* any mapped coordinates: delivered now or remembered, never both; the flush delivers what the LAST
+   message left (an immediate delivery drops an older remembered position) and delivers it once *)
+Theorem C17_pointer_now_or_later : forall ps k c b mx my,
+  nth_error (pcls ps) k = Some c -> owner_ok ps k = true ->
+  let '(ps1, e1) := ptr_msg ps k b mx my in
+  (negb (b =? pbuttons c) || (pdefer ps =? 0) = true /\
+     e1 = Some (b, mx, my) /\ snd (ptr_flush ps1 k) = None) \/
+  (negb (b =? pbuttons c) || (pdefer ps =? 0) = false /\ e1 = None /\
+     snd (ptr_flush ps1 k) = match remember mx my with Some (x, y) => Some (b, Some x, y) | None => None end).
+Proof. exact ptr_msg_cases. Qed.
+
+Theorem C17_pointer_flush_once : forall ps k, snd (ptr_flush (fst (ptr_flush ps k)) k) = None.
+Proof. exact ptr_flush_once. Qed.
+
+(* while one client holds a button the others' pointer events change nothing *)
+Theorem C17_pointer_not_owner : forall ps k j b mx my,
+  powner ps = Some j -> j <> k -> ptr_msg ps k b mx my = (ps, None).
+Proof. exact ptr_msg_not_owner. Qed.
 
 (* bounded: all widths up to NC = 60, all factors, all rectangles: the corrected rectangle computed in
    doubles is non-empty, inside the target and covers the exact image *)
@@ -105,13 +141,13 @@ Theorem C17_filter_average : forall tc fmt g src dst dst',
        forall w u, 0 <= w < gax g -> 0 <= u < gay g -> fb_get src (sx + w) (sy + u) <> None).
 Proof. exact update_rect_spec. Qed.
 
-(* C17_converges (the tree since /repo commit d58ea84: the block of destination pixel X starts at
+(* C17_converges_step (the tree since /repo commit d58ea84: the block of destination pixel X starts at
    ScaleX(X) whatever rectangle is refreshed): if the scaled screen is the box filter of the
    framebuffer, the framebuffer is modified inside a rectangle, and the refresh uses a geometry that is
-   inside the scaled screen and covers the exact image of that rectangle (C17_correction_inside /
-   C17_correction_covers), then the scaled screen is again the box filter of the framebuffer -
+   inside the scaled screen and covers the exact image of that rectangle (C17_correction_inside_Q_model /
+   C17_correction_covers_Q_model), then the scaled screen is again the box filter of the framebuffer -
    for every history of modifications, every size, every factor (dividing or not) *)
-Theorem C17_converges : forall fmt g src src' dst dst' W H w' h' x y w h,
+Theorem C17_converges_step : forall fmt g src src' dst dst' W H w' h' x y w h,
   1 <= w' -> 0 <= W -> 1 <= h' -> 0 <= H ->
   geom_ok g W H w' h' x y w h ->
   Conv fmt src W H w' h' dst ->
@@ -120,10 +156,10 @@ Theorem C17_converges : forall fmt g src src' dst dst' W H w' h' x y w h,
   Conv fmt src' W H w' h' dst'.
 Proof. exact converges_step. Qed.
 
-(* C17_scaled_copy_cursor_free: the soft cursor is painted into the framebuffer and refreshed in every
+(* C17_scaled_copy_cursor_free_step: the soft cursor is painted into the framebuffer and refreshed in every
    scaled copy (rfbShowCursor), then restored and refreshed again (rfbHideCursor, whatever client the
    update was for): each scaled copy is again the box filter of the cursor-free framebuffer *)
-Theorem C17_scaled_copy_cursor_free : forall fmt g src painted dst d1 d2 W H w' h' x y w h,
+Theorem C17_scaled_copy_cursor_free_step : forall fmt g src painted dst d1 d2 W H w' h' x y w h,
   1 <= w' -> 0 <= W -> 1 <= h' -> 0 <= H ->
   geom_ok g W H w' h' x y w h ->
   Conv fmt src W H w' h' dst ->
@@ -164,7 +200,7 @@ Theorem C17_refcounts_change : forall zf tc fmt g st k cl w h st',
 Proof. exact refinv_scaling_setup. Qed.
 
 (* ---------------------------------------------------------------- what the client is told *)
-Theorem C17_size_told : forall palm W H n w h,
+Theorem C17_size_told_message : forall palm W H n w h,
   0 < n -> 0 <= W < 65536 -> 0 <= H < 65536 ->
   scaled_size W H n = Some (w, h) ->
   w = W / n /\ h = H / n /\
@@ -175,8 +211,62 @@ Theorem C17_size_told : forall palm W H n w h,
   else length m = Z.to_nat sz_resize_fb /\ nth 0 m 0 = msg_resize_fb /\ get16 m 2 = w /\ get16 m 4 = h.
 Proof. exact size_told. Qed.
 
-Theorem C17_factor_one : forall W H, scaled_size W H 1 = Some (W, H).
+(* ... stated on the client's state AFTER rfbScalingSetup (tree: zero_fix = true), as rfbSendNewScaleSize
+   builds it: told (W/n, H/n) and on a screen of that size, or - zero dimension - refused and told the size
+   it had.  (cl->PalmVNC itself is set by the message handler, outside scaling_setup: the sticky flag is
+   exercised by the correspondence run only.) *)
+Theorem C17_size_told_after_setup : forall tc fmt g st k cl W H n w h st',
+  RefInv st -> nth_error (clients st) k = Some cl -> calive cl = true ->
+  0 < n -> 0 <= W < 65536 -> 0 <= H < 65536 -> 0 <= ckw cl < 65536 -> 0 <= ckh cl < 65536 ->
+  scaled_size W H n = Some (w, h) ->
+  scaling_setup true tc fmt g st k w h = Some st' ->
+  exists cl', nth_error (clients st') k = Some cl' /\ calive cl' = true /\
+    ((ckw cl' = W / n /\ ckh cl' = H / n) \/ (cl' = cl /\ (W / n = 0 \/ H / n = 0))) /\
+    let m := resize_msg (cpalm cl') W H (ckw cl') (ckh cl') in
+    if cpalm cl'
+    then length m = Z.to_nat sz_palm_resize_fb /\ nth 0 m 0 = msg_palm_resize_fb /\
+         get16 m 2 = W /\ get16 m 4 = H /\ get16 m 6 = ckw cl' /\ get16 m 8 = ckh cl'
+    else length m = Z.to_nat sz_resize_fb /\ nth 0 m 0 = msg_resize_fb /\
+         get16 m 2 = ckw cl' /\ get16 m 4 = ckh cl'.
+Proof. exact size_told_after_setup. Qed.
+
+(* factor 1 is never refused and puts the client back on the unscaled screen, counts consistent.
+   NOT proved: that the pixels of the scaled screens it left are untouched (tested only). *)
+Theorem C17_factor_one_back_on_main : forall zf tc fmt g st k cl st',
+  RefInv st -> nth_error (clients st) k = Some cl -> calive cl = true ->
+  scaled_size (ssw (mainscr st)) (ssh (mainscr st)) 1 = Some (ssw (mainscr st), ssh (mainscr st)) /\
+  (scaling_setup zf tc fmt g st k (ssw (mainscr st)) (ssh (mainscr st)) = Some st' ->
+   RefInv st' /\ exists cl', nth_error (clients st') k = Some cl' /\ calive cl' = true /\
+                             ckw cl' = ssw (mainscr st) /\ ckh cl' = ssh (mainscr st)).
+Proof. exact factor_one_back_on_main. Qed.
+
+(* block size areaX = ScaleX(1) over the doubles = floor(W/w'), all widths <= NS, all factors, including
+   scaled dimension 1 (outside the range of C17_F_agrees_Q_on) *)
+Theorem C17_area_F_is_Q_on : forall W n, 1 <= W <= NS -> 1 <= n <= W ->
+  scaleF (W / n) W 1 = Some (scaleQ (W / n) W 1).
+Proof. exact area_F_is_Q. Qed.
+
+Theorem C17_factor_one_size : forall W H, scaled_size W H 1 = Some (W, H).
 Proof. exact factor_one. Qed.
+
+(* ---------------------------------------------------------------- F17c: CopyRect and scaled clients *)
+(* REFUTED for the tree: rfbDoCopyRect moves pixels in the framebuffer without refreshing the scaled copies
+   (witness: the scaled screen kept, dst, differs from what a refresh of the copied area gives, dst').
+   With notes/fix_C17_3.diff the destination is refreshed like any modified rectangle and C17_converges_step
+   applies (the new contents differ from the old only inside the destination). *)
+Theorem C17_copy_leaves_scaled_stale_refuted :
+  exists fmt src pix' src' g dst dst',
+    update_rect true fmt g src (blank_fb 1 1) = Some dst /\
+    copy_pixels src 0 0 2 1 0 (-1) = Some pix' /\ src' = mkfb 2 2 [[255; 255]; [255; 255]] /\ pix' = [255; 255; 255; 255] /\
+    update_rect true fmt g src' dst = Some dst' /\ dst' <> dst.
+Proof. exact copy_leaves_scaled_stale. Qed.
+
+(* REFUTED for the tree: the displacement of a CopyRect sent to a scaled client - dy is mapped with the
+   width ratio, negative values are truncated towards zero *)
+Theorem C17_copyrect_delta_refuted :
+  scaleF 100 33 70 = Some 23 /\ scaleF 77 25 70 = Some 22 /\
+  scaleF 10 3 (-5) = Some (-1) /\ scaleQ 10 3 (-5) = -2.
+Proof. exact copyrect_delta_refuted. Qed.
 
 (* ---------------------------------------------------------------- F2: zero dimension *)
 (* the tree (since 8e7b6f1, zero_fix = true): a size with a zero dimension is refused, nothing changes;
@@ -198,3 +288,21 @@ Theorem C17_zero_dim_old_refuted :
     (exists cl, nth_error (clients st') 0 = Some cl /\ ckw cl = 0 /\ ckh cl = h) /\
     split_rect_count zlib_max_rect_size w h = None /\ split_rect_count ultra_max_rect_size w h = None.
 Proof. exact zero_dim_refuted. Qed.
+
+(* ---------------------------------------------------------------- NOT PROVED - tested by the correspondence
+   run and the Python oracle only (audit notes/audit_B.md, C17 items 1, 5, 7-10):
+   - history level: C17_converges_step / C17_scaled_copy_cursor_free_step are single refresh steps with geom_ok and
+     Conv as premises.  There is no invariant "every screen of the chain with users is the filtered framebuffer"
+     over join / change / leave / mark_modified (refresh_all, refresh, the base case after scaling_setup): the
+     correspondence run compares every pixel of every scaled screen after EVERY operation instead.
+   - RefInv bounds the SUM of the reference counts per size; that sizes are unique in the chain (find_scaled before
+     allocate) is not part of it.
+   - no lemma links the double geometry upd_geomF / correctionF to geom_ok beyond C17_F_agrees_Q_on,
+     C17_area_F_is_Q_on (W <= 240) and C17_correction_inside_F_on (W <= 60); C17_converges_step has no example
+     instantiated from a real upd_geomF geometry.  Outside these ranges: correspondence sweep only.
+   - C17_scaleX_exact_conditional: its premises about round-to-nearest (RN_mono_int, RN_rel_up) are NOT
+     discharged for PrimFloat division; it documents why the swept statements can be expected to extend.
+   - C17_filter_average, colour-mapped screens (tc = false): the value is stated through totalised reads; "the read
+     exists" is proved for tc = true only.
+   - real update path (rectangles inside the scaled size, request correction with upscale, 3 bytes per pixel,
+     NewFBSize/ExtDesktopSize clients, CopyRect: F17c): Python oracle on session cases only. *)
